@@ -19,4 +19,32 @@ CHECKS = {
     ),
 }
 
+CHECKS['C13'] = dict(
+    src='checks/c13_slices.cpp',
+    runs=[dict(cfg='asan')],
+    technique='small-scope exhaustive construction grid + joint explicit-state BFS over several live readers + lock-step BFS across five backends',
+    level_text='(a) every (start,length) boundary pair incl. 2^63, 2^64-1, 2^64-start at every parent position, both Slice forms, nested to depth 3, on memory readers, file readers and file slices: accepted iff contained (128-bit arithmetic), the slice exposes exactly its window, refusal leaves the parent untouched; (b) the joint state graph of parent + two overlapping slices + a copy + a nested slice under 7 operations each is explored to a fixpoint in memory and to a depth bound on files, and two member streams of a VolFile/ClmFile are interleaved with archive calls: every object must follow its own reference cursor; (c) all in-bounds histories (fixpoint) are driven in lock-step over memory, file, slice-of-memory, slice-of-file and slice-of-slice and must give identical bytes, positions and lengths.',
+    level_note='Trusts g++/libstdc++/ASan and tmpfs. Parent lengths 0,1,4,6; file-backed joint graphs are depth-bounded (4 quick / 6 thorough) because each transition replays its history on freshly opened files.',
+    rule='case = one construction grid (backend x parent length), one joint system, or one lock-step system; states = distinct product states / accepted slices; transitions = operations executed and compared',
+    bounds={'quick': 'grid: 3 backends x parent lengths {0,1,4,6} x all positions x ~12x11 (start,len) pairs x depth 3; joint: memory fixpoint, file/VOL/CLM depth 4; equivalence: lengths {0,1,3,5} fixpoint',
+            'thorough': 'as quick with file/VOL/CLM joint depth 6'},
+    must_hit={'any': ['grid/accepted', 'grid/refused-by-wrap', 'grid/refused-out-of-range', 'interleaving/edges', 'interleaving/archive-cases', 'equivalence/edges', 'equivalence/partial-read-past-end']},
+    assumptions=['archives for the member-stream interleavings are produced by the library itself (their format is checked in C01-C03)'],
+)
+
+CHECKS['C14'] = dict(
+    src='checks/c14_writers.cpp',
+    runs=[dict(cfg='asan')],
+    technique='explicit-state BFS to a fixpoint over (writer private state, buffer bytes, reference vector) plus small-scope exhaustive products for prefixes, stream copies and open flags',
+    level_text='MemoryWriter: all histories of any length over Write/typed writes/Seek* with boundary arguments (0,1,rem-1,rem,rem+1,len,2^31,2^32,2^63,2^64-pos,2^64-1) on exact-size heap buffers of length 0..4 (quick) / 0..6 (thorough), explored to a fixpoint with position, length and the complete buffer compared to a reference vector after every edge (ASan catches any byte written outside). DynamicMemoryWriter: same with the content length capped. Size prefixes: every prefix type x sizes {0,1,2,max-1,max,max+1,max+2} x three container types, refusal iff too large, exact little-endian encoding, Read<S> is the inverse. Stream copy: full product of 8 chunk sizes x 21+ source lengths around every chunk boundary x start positions x 5 reader backends x 3 writer kinds. FileWriter: all 16 flag values x file exists/absent x directory exists/absent, disk content compared.',
+    level_note='Trusts g++/libstdc++/ASan, tmpfs. Weaker readings: a refused size-prefixed write may already have emitted the prefix; for open modes with neither Truncate nor Append only the existence rules are asserted; directory creation as a side effect of a refused open is not judged.',
+    rule='case = one BFS (buffer length) or one product family; states = distinct product states; transitions = writer operations executed and compared',
+    bounds={'quick': 'MemoryWriter n in {0,1,2,4} fixpoint; DynamicMemoryWriter length cap 4 (with and without preallocation); copy chunk sizes {1,2,3,4,7,8,16,131072}',
+            'thorough': 'MemoryWriter n in {0,1,2,4,5,6} fixpoint; DynamicMemoryWriter cap 6; rest as quick'},
+    must_hit={'any': ['memwriter/write-fits', 'memwriter/write-wraps', 'memwriter/write-too-big', 'memwriter/seek-fits', 'memwriter/seek-refused', 'dynwriter/append', 'dynwriter/write-wraps',
+                      'dynwriter/zero-fill', 'dynwriter/truncate', 'dynwriter/refusals', 'prefix/too-large-refused', 'prefix/fits', 'typed/inverse', 'copy/multi-chunk', 'copy/single-chunk',
+                      'filewriter/invalid-flags', 'filewriter/existing-not-allowed', 'filewriter/new-not-allowed', 'filewriter/truncate-or-new', 'filewriter/append-existing']},
+    assumptions=['allocation requests above 64 MiB are refused by the harness allocator (environment model)'],
+)
+
 NOT_APPLICABLE = {}
